@@ -4,6 +4,7 @@ package c18
 
 import (
 	"context"
+	"git.defalsify.org/vise.git/cache"
 
 	"git.defalsify.org/vise.git/db"
 	"git.defalsify.org/vise.git/db/mem"
@@ -51,6 +52,11 @@ func langApp(code1, code2 string) *app.Res {
 func Lang(v *vrt.Ctx) {
 	k := v.Param("K")
 	persisted := v.Param("persisted") == 1
+	// persisted=2: nothing is stored, but every request is served by a new
+	// engine built around the same state and cache objects (a process that
+	// keeps its sessions in memory)
+	perRequest := v.Param("persisted") == 2
+	st, ca := state.NewState(4), cache.NewCache()
 	c1 := codes[v.Choice("code-one", len(codes))]
 	c2 := codes[v.Choice("code-two", len(codes))]
 	cfgLang := []string{"", "nor"}[v.Choice("config-language", 2)]
@@ -74,6 +80,9 @@ func Lang(v *vrt.Ctx) {
 		}
 		if persisted {
 			en = engine.NewEngine(cfg, rs).WithPersister(persist.NewPersister(store))
+		}
+		if perRequest {
+			en = engine.NewEngine(cfg, rs).WithState(st).WithMemory(ca)
 		}
 		mark := len(rs.Log)
 		cont, err := en.Exec(ctx, in)
